@@ -56,6 +56,7 @@ func checkC20(c *Check) {
 	pkg := "provider/manifest"
 	nrm := func(s string) string { return strings.ReplaceAll(s, "*", "") }
 	run := l.Func(pkg, "manager", "run")
+	defer c.cancelBeforeDrain("R2", run)
 	vr := l.Func(pkg, "manager", "validateRequests")
 	fa := l.Func(pkg, "manager", "fillAllRequests")
 	em := l.Func(pkg, "manager", "emitReceivedEvents")
